@@ -1,4 +1,3 @@
-(* WIP *)
 (* C26: the mochi encoder model writes one of the reference forms of the packet [abs pk]; hence the
    decoder model returns [norm pk] for it (CodecEnc.form_decodes). *)
 From MV Require Import Base.Val Base.Bytes Codec.Vbi Codec.VbiProofs Codec.Wire Codec.Props Codec.MochiCodec
@@ -132,3 +131,523 @@ Qed.
 Definition encodes_as_form (pk : packet) (bs : bytes) : Prop :=
   exists body, bs = frame (abs pk) body /\ In body (bodies (pk_version pk) (abs pk)) /\
                len body <= 268435455.
+
+(* ---------- per type: the encoder writes a reference form of [abs pk] ---------- *)
+
+Lemma publish_byte dup qos retain : qos <= 2 ->
+  byte (N.lor (N.lor (N.lor (N.shiftl 3 4) (N.shiftl (encodeBool dup) 3)) (N.shiftl qos 1)) (encodeBool retain))
+  = 3 * 16 + (bool_bit dup 3 + 2 * qos + bool_bit retain 0).
+Proof.
+  intro H. assert (Q : qos = 0 \/ qos = 1 \/ qos = 2) by lia.
+  destruct Q as [->|[->| ->]]; destruct dup; destruct retain; vm_compute; reflexivity.
+Qed.
+
+Ltac wf_open W Ety :=
+  unfold wf_packet in W; rewrite Ety in W; cbv zeta in W; split_and.
+
+Lemma fh_byte_eq fh : fh_byte fh =
+  byte (N.lor (N.lor (N.lor (N.shiftl (fh_type fh) 4) (N.shiftl (encodeBool (fh_dup fh)) 3))
+                     (N.shiftl (fh_qos fh) 1)) (encodeBool (fh_retain fh))).
+Proof. reflexivity. Qed.
+
+Lemma publish_encodes pk bs : wf_packet pk = true -> fh_type (pk_fh pk) = 3 ->
+  mochi_encode pk = Ok bs -> encodes_as_form pk bs.
+Proof.
+  intros W Ety E. unfold mochi_encode in E. rewrite Ety in E. unfold publish_encode in E.
+  wf_open W Ety. unfold encodes_as_form.
+  assert (Ea : abs pk = SPublish (fh_dup (pk_fh pk)) (fh_qos (pk_fh pk)) (fh_retain (pk_fh pk)) (pk_topic pk)
+                 (if 0 <? fh_qos (pk_fh pk) then pk_packet_id pk else 0)
+                 (if pk_version pk =? 5
+                  then entries 3 (pk_mods pk) (pk_props pk)
+                         (blen (encodeString (pk_topic pk)) + (if 0 <? fh_qos (pk_fh pk) then 2 else 0) + blen (pk_payload pk))
+                  else []) (pk_payload pk))
+    by (unfold abs; rewrite Ety; reflexivity).
+  rewrite Ea in *. clear Ea.
+  match goal with Hok : enc_ok _ _ = true |- _ => cbn [enc_ok] in Hok end. split_and.
+  match goal with |- context [frame ?x _] => set (sp := x) in * end.
+  exists (full_body (pk_version pk) sp).
+  assert (Hl : len (full_body (pk_version pk) sp) <= 268435455) by lia.
+  split; [|split; [unfold bodies; destruct (negb (v5 (pk_version pk))); left; reflexivity | exact Hl]].
+  assert (Hb : fh_byte (pk_fh pk) = ptype sp * 16 + pflags sp).
+  { rewrite fh_byte_eq, Ety. unfold sp. cbn [ptype pflags]. apply publish_byte. lia. }
+  match goal with Hp : plist_v _ PUBLISH _ = true |- _ => pose proof (plist_v_len _ _ _ Hp) as Lp end.
+  unfold sp in Hl |- *. cbn [full_body] in Hl |- *. unfold put_props_v, v5 in Hl |- *.
+  match goal with Hs : str_fits (pk_topic pk) = true |- _ => rewrite (encodeString_put _ Hs) in * end.
+  destruct (0 <? fh_qos (pk_fh pk)) eqn:Eq.
+  - destruct (pk_packet_id pk =? 0); [discriminate|]. cbn beta iota delta [bind] in E.
+    replace (fh_qos (pk_fh pk) =? 0) with false in * by lia.
+    rewrite encodeUint16_put in E by lia.
+    destruct (pk_version pk =? 5) eqn:E5.
+    + unfold enc_props in E. rewrite Ety in E. rewrite blen_app in E. change (blen (put_u16 _)) with 2 in E.
+      rewrite props_encode_entries in E by assumption. cbn beta iota delta [bind] in E.
+      rewrite <- !app_assoc in E.
+      rewrite (finish_frame pk _ _ Hl Hb) in E. injection E as <-. reflexivity.
+    + cbn beta iota delta [bind] in E. rewrite <- !app_assoc in E.
+      rewrite (finish_frame pk _ _ Hl Hb) in E. injection E as <-. reflexivity.
+  - cbn beta iota delta [bind] in E.
+    replace (fh_qos (pk_fh pk) =? 0) with true in * by lia.
+    destruct (pk_version pk =? 5) eqn:E5.
+    + unfold enc_props in E. rewrite Ety in E. rewrite N.add_0_r in *.
+      rewrite props_encode_entries in E by assumption. cbn beta iota delta [bind] in E.
+      rewrite <- ?app_assoc in E. cbn [app] in E, Hl |- *.
+      rewrite (finish_frame pk _ _ Hl Hb) in E. injection E as <-. reflexivity.
+    + cbn beta iota delta [bind] in E. rewrite <- ?app_assoc in E. cbn [app] in E, Hl |- *.
+      rewrite (finish_frame pk _ _ Hl Hb) in E. injection E as <-. reflexivity.
+Qed.
+
+Ltac bindE E := cbn beta iota delta [bind] in E.
+Ltac setsp := match goal with |- context [frame ?x _] => set (sp := x) in * end.
+Ltac full_form sp :=
+  split; [|split; [unfold bodies; destruct (negb (v5 _)); try (left; reflexivity); unfold sp; left; reflexivity | assumption]].
+
+Lemma simple_byte ty q : ty <= 15 -> q <= 1 ->
+  byte (N.lor (N.lor (N.lor (N.shiftl ty 4) (N.shiftl (encodeBool false) 3)) (N.shiftl q 1)) (encodeBool false))
+  = ty * 16 + 2 * q.
+Proof.
+  intros H1 H2. assert (Q : q = 0 \/ q = 1) by lia.
+  assert (T : ty = 0 \/ ty = 1 \/ ty = 2 \/ ty = 3 \/ ty = 4 \/ ty = 5 \/ ty = 6 \/ ty = 7 \/ ty = 8 \/ ty = 9 \/
+              ty = 10 \/ ty = 11 \/ ty = 12 \/ ty = 13 \/ ty = 14 \/ ty = 15) by lia.
+  destruct Q as [->| ->]; repeat (destruct T as [->|T]; [vm_compute; reflexivity|]); subst; vm_compute; reflexivity.
+Qed.
+
+(* header byte of every type but PUBLISH, from the flag conditions of wf_packet *)
+Lemma plain_header pk ty q : fh_type (pk_fh pk) = ty -> ty <= 15 -> q <= 1 ->
+  negb (fh_dup (pk_fh pk)) && negb (fh_retain (pk_fh pk)) && (fh_qos (pk_fh pk) =? q) = true ->
+  fh_byte (pk_fh pk) = ty * 16 + 2 * q.
+Proof.
+  intros Ety Hty Hq H. split_and. rewrite fh_byte_eq, Ety.
+  destruct (fh_dup (pk_fh pk)); [discriminate|]. destruct (fh_retain (pk_fh pk)); [discriminate|].
+  replace (fh_qos (pk_fh pk)) with q by lia. apply simple_byte; assumption.
+Qed.
+
+Lemma connack_encodes pk bs : wf_packet pk = true -> fh_type (pk_fh pk) = 2 ->
+  mochi_encode pk = Ok bs -> encodes_as_form pk bs.
+Proof.
+  intros W Ety E. unfold mochi_encode in E. rewrite Ety in E. unfold connack_encode in E.
+  wf_open W Ety. unfold encodes_as_form.
+  assert (Ea : abs pk = SConnack (pk_session_present pk) (pk_reason_code pk)
+                 (if pk_version pk =? 5 then entries 2 (pk_mods pk) (pk_props pk) 4 else []))
+    by (unfold abs; rewrite Ety; reflexivity).
+  rewrite Ea in *. clear Ea.
+  match goal with Hok : enc_ok _ _ = true |- _ => cbn [enc_ok] in Hok end.
+  setsp. exists (full_body (pk_version pk) sp).
+  assert (Hl : len (full_body (pk_version pk) sp) <= 268435455) by lia.
+  full_form sp.
+  assert (Hb : fh_byte (pk_fh pk) = ptype sp * 16 + pflags sp).
+  { unfold sp. cbn [ptype pflags]. rewrite (plain_header pk 2 0 Ety); try lia. assumption. }
+  match goal with Hp : plist_v _ CONNACK _ = true |- _ => pose proof (plist_v_len _ _ _ Hp) as Lp end.
+  unfold sp in Hl |- *. cbn [full_body] in Hl |- *. unfold put_props_v, v5 in Hl |- *.
+  change (blen [encodeBool (pk_session_present pk); pk_reason_code pk] + 2) with 4 in E. unfold encodeBool in E.
+  destruct (pk_version pk =? 5) eqn:E5.
+  - unfold enc_props in E. rewrite Ety in E.
+    rewrite props_encode_entries in E by assumption. bindE E.
+    rewrite (finish_frame pk _ _ Hl Hb) in E. injection E as <-. reflexivity.
+  - bindE E. rewrite (finish_frame pk _ _ Hl Hb) in E. injection E as <-. reflexivity.
+Qed.
+
+Lemma put_props_nil_len : blen (put_props []) = 1.
+Proof. reflexivity. Qed.
+
+Lemma put_props_cons_len c cs : 2 <= blen (put_props (c :: cs)).
+Proof.
+  unfold put_props. rewrite blen_app.
+  assert (1 <= blen (put_props_body (c :: cs))).
+  { rewrite put_props_body_cons, blen_app. pose proof (put_prop_nonempty c). unfold blen. lia. }
+  assert (1 <= blen (put_vbi (len (put_props_body (c :: cs))))).
+  { unfold put_vbi. repeat match goal with |- context [if ?c then _ else _] => destruct c end;
+      unfold blen; cbn [length]; lia. }
+  lia.
+Qed.
+
+Lemma ack_encodes pk bs ty : wf_packet pk = true -> fh_type (pk_fh pk) = ty ->
+  ty = 4 \/ ty = 5 \/ ty = 6 \/ ty = 7 ->
+  mochi_encode pk = Ok bs -> encodes_as_form pk bs.
+Proof.
+  intros W Ety Hty E.
+  assert (E' : ack_encode pk = Ok bs).
+  { unfold mochi_encode in E. rewrite Ety in E. destruct Hty as [->|[->|[->| ->]]]; exact E. }
+  clear E. rename E' into E. unfold ack_encode in E.
+  assert (Ea : abs pk = SAck (ack_kind_of ty) (pk_packet_id pk) (if pk_version pk =? 5 then pk_reason_code pk else 0)
+                 (if pk_version pk =? 5 then entries ty (pk_mods pk) (pk_props pk) 2 else [])).
+  { unfold abs. rewrite Ety. destruct Hty as [->|[->|[->| ->]]]; reflexivity. }
+  assert (Hflags : negb (fh_dup (pk_fh pk)) && negb (fh_retain (pk_fh pk))
+                   && (fh_qos (pk_fh pk) =? (if ty =? 6 then 1 else 0)) = true).
+  { unfold wf_packet in W. rewrite Ety in W. cbv zeta in W. split_and.
+    destruct Hty as [->|[->|[->| ->]]]; assumption. }
+  assert (Hb : fh_byte (pk_fh pk) = ptype (abs pk) * 16 + pflags (abs pk)).
+  { rewrite Ea. cbn [ptype pflags].
+    destruct Hty as [->|[->|[->| ->]]]; cbn [ack_kind_of ack_type];
+      [rewrite (plain_header pk 4 0 Ety) | rewrite (plain_header pk 5 0 Ety)
+      | rewrite (plain_header pk 6 1 Ety) | rewrite (plain_header pk 7 0 Ety)]; try lia; try exact Hflags; reflexivity. }
+  unfold wf_packet in W. rewrite Ety in W. cbv zeta in W. split_and. unfold encodes_as_form.
+  rewrite Ea in *. clear Ea.
+  match goal with Hok : enc_ok _ _ = true |- _ => cbn [enc_ok] in Hok end. split_and.
+  rewrite encodeUint16_put in E by lia.
+  assert (Eat : ack_type (ack_kind_of ty) = ty) by (destruct Hty as [->|[->|[->| ->]]]; reflexivity).
+  rewrite Eat in *.
+  unfold bodies, v5. cbn [full_body]. unfold v5.
+  match goal with Hf : (len (full_body _ _) <=? _) = true |- _ => cbn [full_body] in Hf; unfold v5 in Hf end.
+  destruct (pk_version pk =? 5) eqn:E5; cbn [negb].
+  - match goal with Hp : plist_v _ _ _ = true |- _ => pose proof (plist_v_len _ _ _ Hp) as Lp end.
+    unfold enc_props in E. rewrite Ety in E.
+    change (blen (put_u16 (pk_packet_id pk))) with 2 in E.
+    rewrite props_encode_entries in E by assumption. bindE E.
+    destruct (entries ty (pk_mods pk) (pk_props pk) 2) as [|c cs] eqn:Een.
+    + change (1 <? blen (put_props [])) with false in E. cbn [when orb] in E. rewrite app_nil_r in E.
+      cbn [no_props andb].
+      destruct (pk_reason_code pk =? 0) eqn:Er; cbn [negb orb when] in E.
+      * exists (put_u16 (pk_packet_id pk)). rewrite app_nil_r in E.
+        rewrite (finish_frame pk (put_u16 (pk_packet_id pk)) _ ltac:(change (2 <= 268435455); lia) Hb) in E. injection E as <-.
+        split; [reflexivity|]. split; [|change (2 <= 268435455); lia].
+        right. right. left. reflexivity.
+      * exists (put_u16 (pk_packet_id pk) ++ [pk_reason_code pk]).
+        rewrite (finish_frame pk (put_u16 (pk_packet_id pk) ++ [pk_reason_code pk]) _ ltac:(change (3 <= 268435455); lia) Hb) in E. injection E as <-.
+        split; [reflexivity|]. split; [|change (3 <= 268435455); lia].
+        right. left. reflexivity.
+    + pose proof (put_props_cons_len c cs) as L2.
+      replace (1 <? blen (put_props (c :: cs))) with true in E by lia.
+      rewrite orb_true_r in E. cbn [when] in E.
+      exists (put_u16 (pk_packet_id pk) ++ pk_reason_code pk :: put_props (c :: cs)).
+      assert (Hl : len (put_u16 (pk_packet_id pk) ++ pk_reason_code pk :: put_props (c :: cs)) <= 268435455) by lia.
+      change ([pk_reason_code pk] ++ put_props (c :: cs)) with (pk_reason_code pk :: put_props (c :: cs)) in E.
+      rewrite (finish_frame pk _ _ Hl Hb) in E. injection E as <-.
+      split; [reflexivity|]. split; [left; reflexivity | exact Hl].
+  - exists (put_u16 (pk_packet_id pk) ++ []).
+    rewrite (finish_frame pk (put_u16 (pk_packet_id pk)) _ ltac:(change (2 <= 268435455); lia) Hb) in E. injection E as <-.
+    split; [rewrite app_nil_r; reflexivity|]. split; [left; reflexivity | change (2 <= 268435455); lia].
+Qed.
+
+Ltac join_flags := repeat match goal with Hx : ?a = true |- context [?a] => rewrite Hx end; reflexivity.
+
+Ltac norm_len :=
+  match goal with Hf : (len (full_body _ _) <=? _) = true |- _ => cbn [full_body] in Hf; unfold put_props_v, v5 in Hf end.
+
+Lemma suback_encodes pk bs : wf_packet pk = true -> fh_type (pk_fh pk) = 9 ->
+  mochi_encode pk = Ok bs -> encodes_as_form pk bs.
+Proof.
+  intros W Ety E. unfold mochi_encode in E. rewrite Ety in E. unfold suback_encode in E.
+  wf_open W Ety. unfold encodes_as_form.
+  assert (Ea : abs pk = SSuback (pk_packet_id pk)
+                 (if pk_version pk =? 5 then entries 9 (pk_mods pk) (pk_props pk) (2 + blen (pk_reason_codes pk)) else [])
+                 (pk_reason_codes pk))
+    by (unfold abs; rewrite Ety; reflexivity).
+  rewrite Ea in *. clear Ea.
+  match goal with Hok : enc_ok _ _ = true |- _ => cbn [enc_ok] in Hok end.
+  setsp. exists (full_body (pk_version pk) sp).
+  assert (Hl : len (full_body (pk_version pk) sp) <= 268435455) by lia.
+  full_form sp.
+  assert (Hb : fh_byte (pk_fh pk) = ptype sp * 16 + pflags sp).
+  { unfold sp. cbn [ptype pflags]. rewrite (plain_header pk 9 0 Ety); try lia. assumption. }
+  match goal with Hp : plist_v _ SUBACK _ = true |- _ => pose proof (plist_v_len _ _ _ Hp) as Lp end.
+  unfold sp in Hl |- *. cbn [full_body] in Hl |- *. unfold put_props_v, v5 in Hl |- *.
+  rewrite encodeUint16_put in E by lia. change (blen (put_u16 (pk_packet_id pk))) with 2 in E.
+  destruct (pk_version pk =? 5) eqn:E5.
+  - unfold enc_props in E. rewrite Ety in E.
+    rewrite props_encode_entries in E by assumption. bindE E.
+    rewrite (finish_frame pk _ _ Hl Hb) in E. injection E as <-. reflexivity.
+  - bindE E. rewrite (finish_frame pk _ _ Hl Hb) in E. injection E as <-. reflexivity.
+Qed.
+
+Lemma unsuback_encodes pk bs : wf_packet pk = true -> fh_type (pk_fh pk) = 11 ->
+  mochi_encode pk = Ok bs -> encodes_as_form pk bs.
+Proof.
+  intros W Ety E. unfold mochi_encode in E. rewrite Ety in E. unfold unsuback_encode in E.
+  wf_open W Ety. unfold encodes_as_form.
+  assert (Ea : abs pk = SUnsuback (pk_packet_id pk)
+                 (if pk_version pk =? 5 then entries 11 (pk_mods pk) (pk_props pk) 2 else [])
+                 (if pk_version pk =? 5 then pk_reason_codes pk else []))
+    by (unfold abs; rewrite Ety; reflexivity).
+  rewrite Ea in *. clear Ea.
+  match goal with Hok : enc_ok _ _ = true |- _ => cbn [enc_ok] in Hok end. split_and.
+  setsp. exists (full_body (pk_version pk) sp).
+  assert (Hl : len (full_body (pk_version pk) sp) <= 268435455) by lia.
+  full_form sp.
+  assert (Hb : fh_byte (pk_fh pk) = ptype sp * 16 + pflags sp).
+  { unfold sp. cbn [ptype pflags]. rewrite (plain_header pk 11 0 Ety); try lia. assumption. }
+  match goal with Hp : plist_v _ UNSUBACK _ = true |- _ => pose proof (plist_v_len _ _ _ Hp) as Lp end.
+  unfold sp in Hl |- *. cbn [full_body] in Hl |- *. unfold put_props_v, v5 in Hl |- *.
+  rewrite encodeUint16_put in E by lia. change (blen (put_u16 (pk_packet_id pk))) with 2 in E.
+  destruct (pk_version pk =? 5) eqn:E5.
+  - unfold enc_props in E. rewrite Ety in E.
+    rewrite props_encode_entries in E by assumption. bindE E.
+    rewrite (finish_frame pk _ _ Hl Hb) in E. injection E as <-. reflexivity.
+  - cbn [app] in Hl |- *. rewrite app_nil_r in Hl |- *.
+    rewrite (finish_frame pk _ _ Hl Hb) in E. injection E as <-. reflexivity.
+Qed.
+
+Lemma disconnect_encodes pk bs : wf_packet pk = true -> fh_type (pk_fh pk) = 14 ->
+  mochi_encode pk = Ok bs -> encodes_as_form pk bs.
+Proof.
+  intros W Ety E. unfold mochi_encode in E. rewrite Ety in E. unfold disconnect_encode in E.
+  wf_open W Ety. unfold encodes_as_form.
+  assert (Ea : abs pk = SDisconnect (if pk_version pk =? 5 then pk_reason_code pk else 0)
+                 (if pk_version pk =? 5 then entries 14 (pk_mods pk) (pk_props pk) 1 else []))
+    by (unfold abs; rewrite Ety; reflexivity).
+  rewrite Ea in *. clear Ea.
+  match goal with Hok : enc_ok _ _ = true |- _ => cbn [enc_ok] in Hok end. split_and.
+  setsp. exists (full_body (pk_version pk) sp).
+  assert (Hl : len (full_body (pk_version pk) sp) <= 268435455) by lia.
+  split; [|split; [unfold bodies; destruct (negb (v5 _)); left; reflexivity | assumption]].
+  assert (Hb : fh_byte (pk_fh pk) = ptype sp * 16 + pflags sp).
+  { unfold sp. cbn [ptype pflags]. rewrite (plain_header pk 14 0 Ety); try lia. assumption. }
+  match goal with Hp : plist_v _ DISCONNECT _ = true |- _ => pose proof (plist_v_len _ _ _ Hp) as Lp end.
+  unfold sp in Hl |- *. cbn [full_body] in Hl |- *. unfold v5 in Hl |- *.
+  destruct (pk_version pk =? 5) eqn:E5.
+  - unfold enc_props in E. rewrite Ety in E.
+    rewrite props_encode_entries in E by assumption. bindE E.
+    rewrite (finish_frame pk _ _ Hl Hb) in E. injection E as <-. reflexivity.
+  - rewrite (finish_frame pk _ _ Hl Hb) in E. injection E as <-. reflexivity.
+Qed.
+
+Lemma auth_encodes pk bs : wf_packet pk = true -> fh_type (pk_fh pk) = 15 ->
+  mochi_encode pk = Ok bs -> encodes_as_form pk bs.
+Proof.
+  intros W Ety E. unfold mochi_encode in E. rewrite Ety in E. unfold auth_encode in E.
+  wf_open W Ety. unfold encodes_as_form.
+  assert (Ea : abs pk = SAuth (pk_reason_code pk) (entries 15 (pk_mods pk) (pk_props pk) 1))
+    by (unfold abs; rewrite Ety; reflexivity).
+  rewrite Ea in *. clear Ea.
+  match goal with Hok : enc_ok _ _ = true |- _ => cbn [enc_ok] in Hok end.
+  setsp. exists (full_body (pk_version pk) sp).
+  assert (Hl : len (full_body (pk_version pk) sp) <= 268435455) by lia.
+  split; [|split; [unfold bodies; destruct (negb (v5 _)); left; reflexivity | assumption]].
+  assert (Hb : fh_byte (pk_fh pk) = ptype sp * 16 + pflags sp).
+  { unfold sp. cbn [ptype pflags]. rewrite (plain_header pk 15 0 Ety); try lia. assumption. }
+  match goal with Hp : plist_fits AUTH _ = true |- _ => pose proof (plist_fits_parts _ _ Hp) as (_ & _ & Lp) end.
+  unfold sp in Hl |- *. cbn [full_body] in Hl |- *.
+  unfold enc_props in E. rewrite Ety in E.
+  rewrite props_encode_entries in E by assumption. bindE E.
+  rewrite (finish_frame pk _ _ Hl Hb) in E. injection E as <-. reflexivity.
+Qed.
+
+Lemma ping_encodes pk bs ty : wf_packet pk = true -> fh_type (pk_fh pk) = ty -> ty = 12 \/ ty = 13 ->
+  mochi_encode pk = Ok bs -> encodes_as_form pk bs.
+Proof.
+  intros W Ety Hty E.
+  assert (E' : ping_encode pk = Ok bs).
+  { unfold mochi_encode in E. rewrite Ety in E. destruct Hty as [->| ->]; exact E. }
+  clear E. rename E' into E. unfold ping_encode, fh_encode in E.
+  assert (Ea : abs pk = if ty =? 12 then SPingreq else SPingresp).
+  { unfold abs. rewrite Ety. destruct Hty as [->| ->]; reflexivity. }
+  unfold wf_packet in W. rewrite Ety in W. cbv zeta in W. split_and.
+  assert (Hrem : fh_remaining (pk_fh pk) = 0).
+  { destruct Hty as [->| ->]; match goal with Hr : (if _ then fh_remaining _ =? 0 else true) = true |- _ =>
+      cbn in Hr; apply N.eqb_eq in Hr; exact Hr end. }
+  assert (Hb : fh_byte (pk_fh pk) = ty * 16 + 2 * 0).
+  { apply plain_header; try lia. destruct Hty as [->| ->]; assumption. }
+  rewrite Hrem, Hb in E. bindE E. injection E as <-.
+  unfold encodes_as_form. exists []. rewrite Ea.
+  destruct Hty as [->| ->]; (split; [reflexivity|split; [unfold bodies; destruct (negb (v5 _)); left; reflexivity | change (0 <= 268435455); lia]]).
+Qed.
+
+Lemma sub_encode_put s : s_qos s <= 2 -> s_retain_handling s < 4 ->
+  sub_encode s = s_qos s + bool_bit (s_no_local s) 2 + bool_bit (s_rap s) 3 + 16 * s_retain_handling s.
+Proof.
+  destruct s as [f i rh q rap nl]. cbn [s_qos s_retain_handling s_no_local s_rap]. intros Hq Hr.
+  unfold sub_encode. cbn [s_qos s_retain_handling s_no_local s_rap].
+  assert (Q : q = 0 \/ q = 1 \/ q = 2) by lia.
+  assert (R : rh = 0 \/ rh = 1 \/ rh = 2 \/ rh = 3) by lia.
+  destruct Q as [->|[->| ->]]; destruct R as [->|[->|[->| ->]]]; destruct nl; destruct rap; vm_compute; reflexivity.
+Qed.
+
+Lemma enc_filters_put v l :
+  forallb (fun s => (s_qos s <=? 2) && (s_retain_handling s <? 4)) l = true ->
+  forallb (filter_fits v) (map (filter_of (v =? 5)) l) = true ->
+  enc_filters (v =? 5) l = concat (map (put_filter v) (map (filter_of (v =? 5)) l)).
+Proof.
+  induction l as [|s r IH]; intros H1 H2; [reflexivity|].
+  cbn [forallb map] in H1, H2. split_and.
+  cbn [enc_filters map concat]. rewrite IH by assumption.
+  unfold put_filter at 2. rewrite <- app_assoc. unfold filter_fits in *. split_and.
+  destruct (v =? 5) eqn:E5; cbn [filter_of f_filter f_qos f_no_local f_retain_as_published f_retain_handling] in *.
+  - rewrite encodeString_put by assumption. rewrite sub_encode_put by lia. reflexivity.
+  - rewrite encodeString_put by assumption. cbn [bool_bit].
+    replace (s_qos s + 0 + 0 + 16 * 0) with (s_qos s) by lia. reflexivity.
+Qed.
+
+Lemma enc_unsub_filters_put l : forallb str_fits (map s_filter l) = true ->
+  enc_unsub_filters l = concat (map put_str (map s_filter l)).
+Proof.
+  induction l as [|s r IH]; intro H; [reflexivity|].
+  cbn [forallb map] in H. split_and. cbn [enc_unsub_filters map concat].
+  rewrite IH by assumption. rewrite encodeString_put by assumption. reflexivity.
+Qed.
+
+Lemma subscribe_encodes pk bs : wf_packet pk = true -> fh_type (pk_fh pk) = 8 ->
+  mochi_encode pk = Ok bs -> encodes_as_form pk bs.
+Proof.
+  intros W Ety E. unfold mochi_encode in E. rewrite Ety in E. unfold subscribe_encode in E.
+  wf_open W Ety. unfold encodes_as_form.
+  assert (Ea : abs pk = SSubscribe (pk_packet_id pk)
+                 (if pk_version pk =? 5
+                  then entries 8 (pk_mods pk) (pk_props pk) (2 + blen (enc_filters (pk_version pk =? 5) (pk_filters pk))) else [])
+                 (map (filter_of (pk_version pk =? 5)) (pk_filters pk)))
+    by (unfold abs; rewrite Ety; reflexivity).
+  rewrite Ea in *. clear Ea.
+  match goal with Hok : enc_ok _ _ = true |- _ => cbn [enc_ok] in Hok end. split_and.
+  setsp. exists (full_body (pk_version pk) sp).
+  assert (Hl : len (full_body (pk_version pk) sp) <= 268435455) by lia.
+  full_form sp.
+  assert (Hb : fh_byte (pk_fh pk) = ptype sp * 16 + pflags sp).
+  { unfold sp. cbn [ptype pflags]. rewrite (plain_header pk 8 1 Ety); try lia. assumption. }
+  match goal with Hp : plist_v _ SUBSCRIBE _ = true |- _ => pose proof (plist_v_len _ _ _ Hp) as Lp end.
+  unfold sp in Hl |- *. cbn [full_body] in Hl |- *. unfold put_props_v, v5 in Hl |- *.
+  destruct (pk_packet_id pk =? 0); [discriminate|].
+  rewrite encodeUint16_put in E by lia. change (blen (put_u16 (pk_packet_id pk))) with 2 in E.
+  rewrite <- (enc_filters_put (pk_version pk) (pk_filters pk)) in Hl |- * by assumption.
+  destruct (pk_version pk =? 5) eqn:E5.
+  - unfold enc_props in E. rewrite Ety in E.
+    rewrite props_encode_entries in E by assumption. bindE E.
+    rewrite (finish_frame pk _ _ Hl Hb) in E. injection E as <-. reflexivity.
+  - bindE E. rewrite (finish_frame pk _ _ Hl Hb) in E. injection E as <-. reflexivity.
+Qed.
+
+Lemma unsubscribe_encodes pk bs : wf_packet pk = true -> fh_type (pk_fh pk) = 10 ->
+  mochi_encode pk = Ok bs -> encodes_as_form pk bs.
+Proof.
+  intros W Ety E. unfold mochi_encode in E. rewrite Ety in E. unfold unsubscribe_encode in E.
+  wf_open W Ety. unfold encodes_as_form.
+  assert (Ea : abs pk = SUnsubscribe (pk_packet_id pk)
+                 (if pk_version pk =? 5
+                  then entries 10 (pk_mods pk) (pk_props pk) (2 + blen (enc_unsub_filters (pk_filters pk))) else [])
+                 (map s_filter (pk_filters pk)))
+    by (unfold abs; rewrite Ety; reflexivity).
+  rewrite Ea in *. clear Ea.
+  match goal with Hok : enc_ok _ _ = true |- _ => cbn [enc_ok] in Hok end. split_and.
+  setsp. exists (full_body (pk_version pk) sp).
+  assert (Hl : len (full_body (pk_version pk) sp) <= 268435455) by lia.
+  full_form sp.
+  assert (Hb : fh_byte (pk_fh pk) = ptype sp * 16 + pflags sp).
+  { unfold sp. cbn [ptype pflags]. rewrite (plain_header pk 10 1 Ety); try lia. assumption. }
+  match goal with Hp : plist_v _ UNSUBSCRIBE _ = true |- _ => pose proof (plist_v_len _ _ _ Hp) as Lp end.
+  unfold sp in Hl |- *. cbn [full_body] in Hl |- *. unfold put_props_v, v5 in Hl |- *.
+  destruct (pk_packet_id pk =? 0); [discriminate|].
+  rewrite encodeUint16_put in E by lia. change (blen (put_u16 (pk_packet_id pk))) with 2 in E.
+  rewrite <- (enc_unsub_filters_put (pk_filters pk)) in Hl |- * by assumption.
+  destruct (pk_version pk =? 5) eqn:E5.
+  - unfold enc_props in E. rewrite Ety in E.
+    rewrite props_encode_entries in E by assumption. bindE E.
+    rewrite (finish_frame pk _ _ Hl Hb) in E. injection E as <-. reflexivity.
+  - bindE E. rewrite (finish_frame pk _ _ Hl Hb) in E. injection E as <-. reflexivity.
+Qed.
+
+Lemma beq_bytes_eq a : forall b, beq_bytes a b = true -> a = b.
+Proof.
+  induction a as [|x a IH]; destruct b as [|y b]; cbn [beq_bytes]; intro H; try discriminate; [reflexivity|].
+  apply andb_prop in H. destruct H as [H1 H2]. apply N.eqb_eq in H1. subst y. f_equal. apply IH. exact H2.
+Qed.
+
+Lemma connect_flags_put clean wf wq wr pf uf : wq < 4 -> (wf = true \/ (wq = 0 /\ wr = false)) ->
+  byte (N.lor (N.lor (N.lor (N.lor (N.lor
+    (N.shiftl (encodeBool clean) 1) (N.shiftl (encodeBool wf) 2)) (N.shiftl wq 3))
+    (N.shiftl (encodeBool wr) 5)) (N.shiftl (encodeBool pf) 6)) (N.shiftl (encodeBool uf) 7))
+  = bool_bit clean 1 + (if wf then 4 + 8 * wq + bool_bit wr 5 else 0) + bool_bit pf 6 + bool_bit uf 7.
+Proof.
+  intros Hq Hw. assert (Q : wq = 0 \/ wq = 1 \/ wq = 2 \/ wq = 3) by lia.
+  destruct Hw as [->|[-> ->]].
+  - destruct Q as [->|[->|[->| ->]]]; destruct clean; destruct wr; destruct pf; destruct uf; vm_compute; reflexivity.
+  - destruct wf; destruct clean; destruct pf; destruct uf; vm_compute; reflexivity.
+Qed.
+
+Lemma connect_encodes pk bs : wf_packet pk = true -> fh_type (pk_fh pk) = 1 ->
+  mochi_encode pk = Ok bs -> encodes_as_form pk bs.
+Proof.
+  intros W Ety E. unfold mochi_encode in E. rewrite Ety in E. unfold connect_encode in E.
+  wf_open W Ety. unfold encodes_as_form. cbv zeta in E.
+  set (c := pk_connect pk) in *. set (v := pk_version pk) in *.
+  assert (Ea : abs pk = SConnect v (c_clean c) (c_keepalive c)
+                 (if v =? 5 then entries 1 (pk_mods pk) (pk_props pk) 0 else []) (c_client_id c)
+                 (if c_will_flag c
+                  then Some (mkwill (if v =? 5 then entries WILLPROPS (pk_mods pk) (c_will_props c) 0 else [])
+                                    (c_will_topic c) (c_will_payload c) (c_will_qos c) (c_will_retain c))
+                  else None)
+                 (if c_username_flag c then Some (c_username c) else None)
+                 (if c_password_flag c then Some (c_password c) else None))
+    by (unfold abs; rewrite Ety; reflexivity).
+  rewrite Ea in *. clear Ea.
+  match goal with Hok : enc_ok _ _ = true |- _ => cbn [enc_ok] in Hok end. split_and.
+  setsp. exists (full_body v sp).
+  assert (Hl : len (full_body v sp) <= 268435455) by lia.
+  full_form sp.
+  assert (Hb : fh_byte (pk_fh pk) = ptype sp * 16 + pflags sp).
+  { unfold sp. cbn [ptype pflags]. rewrite (plain_header pk 1 0 Ety); try lia. assumption. }
+  match goal with Hc : (if 1 =? 1 then _ else true) = true |- _ => change (1 =? 1) with true in Hc; cbv iota in Hc end.
+  split_and.
+  match goal with Hn : beq_bytes _ _ = true |- _ => apply beq_bytes_eq in Hn end.
+  match goal with Hp : plist_v _ CONNECT _ = true |- _ => pose proof (plist_v_len _ _ _ Hp) as Lp end.
+  assert (Hwq : c_will_qos c < 4 /\ (c_will_flag c = true \/ (c_will_qos c = 0 /\ c_will_retain c = false))).
+  { destruct (c_will_flag c) eqn:Ew.
+    - cbn [opt_ok] in *. match goal with Hw : will_fits _ _ = true |- _ => unfold will_fits in Hw; cbn [will_qos] in Hw end.
+      split_and. split; [lia | left; reflexivity].
+    - cbn [orb] in *. split_and. destruct (c_will_retain c); [discriminate|]. split; [lia|right; split; [lia|reflexivity]]. }
+  destruct Hwq as [Hq Hwc].
+  assert (Hfl : connect_flags c = connect_flags_of (c_clean c)
+                 (if c_will_flag c
+                  then Some (mkwill (if v =? 5 then entries WILLPROPS (pk_mods pk) (c_will_props c) 0 else [])
+                                    (c_will_topic c) (c_will_payload c) (c_will_qos c) (c_will_retain c))
+                  else None)
+                 (if c_username_flag c then Some (c_username c) else None)
+                 (if c_password_flag c then Some (c_password c) else None)).
+  { unfold connect_flags, connect_flags_of. rewrite (connect_flags_put _ _ _ _ _ _ Hq Hwc).
+    destruct (c_will_flag c); destruct (c_username_flag c); destruct (c_password_flag c); reflexivity. }
+  unfold sp in Hl |- *. cbn [full_body] in Hl |- *. unfold put_props_v, v5 in Hl |- *.
+  rewrite <- Hfl in Hl |- *. clear Hfl.
+  match goal with Hn : c_protocol_name _ = _ |- _ => rewrite <- Hn in Hl |- * end.
+  assert (Hnf : bin_fits (c_protocol_name c) = true).
+  { match goal with Hn : c_protocol_name _ = _ |- _ => rewrite Hn end. destruct (v =? 3); reflexivity. }
+  rewrite (encodeBytes_put _ Hnf) in E.
+  rewrite encodeUint16_put in E by lia.
+  match goal with Hs : str_fits (c_client_id c) = true |- _ => rewrite (encodeString_put _ Hs) in E end.
+  unfold enc_props in E. rewrite Ety in E.
+  destruct (v =? 5) eqn:E5; destruct (c_will_flag c) eqn:Ew; destruct (c_username_flag c) eqn:Eu;
+    destruct (c_password_flag c) eqn:Ep; cbn [opt_ok when will_props will_topic will_payload will_qos will_retain] in *;
+    repeat match goal with Hw : will_fits _ _ = true |- _ =>
+      unfold will_fits in Hw; cbn [will_props will_topic will_payload will_qos] in Hw; split_and end;
+    repeat match goal with Hp : plist_v _ WILLPROPS _ = true |- _ => apply plist_v_len in Hp end;
+    repeat (rewrite props_encode_entries in E by assumption);
+    repeat match goal with Hs : str_fits ?x = true |- _ => rewrite (encodeString_put x Hs) in E end;
+    repeat match goal with Hs : bin_fits ?x = true |- _ => rewrite (encodeBytes_put x Hs) in E end;
+    bindE E; match type of E with finish pk ?b = _ => rewrite (finish_frame pk b _ Hl Hb) in E end;
+    injection E as <-; reflexivity.
+Qed.
+
+Theorem encode_is_form pk bs : wf_packet pk = true -> mochi_encode pk = Ok bs -> encodes_as_form pk bs.
+Proof.
+  intros W E.
+  assert (T : 1 <= fh_type (pk_fh pk) <= 15).
+  { unfold wf_packet in W. cbv zeta in W. split_and. lia. }
+  remember (fh_type (pk_fh pk)) as ty eqn:Ety. symmetry in Ety.
+  assert (C : ty = 1 \/ ty = 2 \/ ty = 3 \/ ty = 4 \/ ty = 5 \/ ty = 6 \/ ty = 7 \/ ty = 8 \/ ty = 9 \/
+              ty = 10 \/ ty = 11 \/ ty = 12 \/ ty = 13 \/ ty = 14 \/ ty = 15) by lia.
+  destruct C as [->|[->|[->|[->|[->|[->|[->|[->|[->|[->|[->|[->|[->|[->| ->]]]]]]]]]]]]]].
+  - apply connect_encodes; assumption.
+  - apply connack_encodes; assumption.
+  - apply publish_encodes; assumption.
+  - apply (ack_encodes pk bs 4); auto.
+  - apply (ack_encodes pk bs 5); auto.
+  - apply (ack_encodes pk bs 6); auto.
+  - apply (ack_encodes pk bs 7); auto.
+  - apply subscribe_encodes; assumption.
+  - apply suback_encodes; assumption.
+  - apply unsubscribe_encodes; assumption.
+  - apply unsuback_encodes; assumption.
+  - apply (ping_encodes pk bs 12); auto.
+  - apply (ping_encodes pk bs 13); auto.
+  - apply disconnect_encodes; assumption.
+  - apply auth_encodes; assumption.
+Qed.
+
+(* round trip: what the encoder writes for a well-formed packet, followed by anything, is decoded
+   (same protocol version) as the normal form of the packet, leaving the rest unread; the remaining
+   length in the fixed header is the number of bytes that follow it *)
+Theorem roundtrip pk bs rest :
+  wf_packet pk = true -> mochi_encode pk = Ok bs -> Vbi.wf_bytes (bs ++ rest) ->
+  exists rem, mochi_decode_packet (pk_version pk) (bs ++ rest) = Ok (norm pk rem, rest) /\
+              exists hb body, bs = hb :: put_vbi rem ++ body /\ blen body = rem /\ rem <= 268435455.
+Proof.
+  intros W E Hw. destruct (encode_is_form pk bs W E) as (body & -> & Hin & Hl).
+  exists (len body). split.
+  - apply form_decodes; try assumption.
+    unfold wf_packet in W. cbv zeta in W. split_and. assumption.
+  - exists (ptype (abs pk) * 16 + pflags (abs pk)), body. split; [reflexivity|]. split; [reflexivity | exact Hl].
+Qed.
